@@ -121,9 +121,13 @@ def run(ctx):
     import random as _random
     sample = list(extra)
     _random.Random(ctx.seed).shuffle(sample)
+    e2_deadline = (ctx.t0 + 0.4 * ctx.budget) if ctx.budget else None      # the queries run one after the other in this process: at most 40 % of the tier's wall budget
     for t in list(trees) + sample[:16]:
-        verdict, word, dt = z3_query(t, LMAX, z3)
         ident = f"E2:{pat.show(t)}"
+        if e2_deadline is not None and time.time() > e2_deadline:
+            ctx.inconclusive_(ident, "not started: the E2 share of the tier's wall-time budget was used up")
+            continue
+        verdict, word, dt = z3_query(t, LMAX, z3)
         if verdict == "unsat":
             ctx.discharge(ident, 0, dt, {"query": ident, "result": "unsat (DFA == regex semantics for all words up to 12)", "s": round(dt, 3)} if len(ctx.samples) < 3 else None)
         elif verdict == "sat":
